@@ -43,7 +43,7 @@ FLAVOURS = {
     },
 }
 
-COMMON_SRC = ["kernel.cpp", "dump.cpp", "monitor.cpp", "ruletable.cpp", "engines.cpp", "importworld.cpp"]
+COMMON_SRC = ["kernel.cpp", "dump.cpp", "monitor.cpp", "ruletable.cpp", "engines.cpp", "importworld.cpp", "modelgen.cpp"]
 
 
 def engine_sources():
@@ -265,8 +265,14 @@ def batches_for(prop, tier):
             Batch("import", "asan", 160 * (24 if q else 400), {"sweep": 1}, "import/single-fault-sweep"),
             Batch("import", "asan", 3000 if q else 120000, {}, "import/seeded-multi-fault"),
         ]
+    if prop == "C13":
+        return [
+            Batch("annot", "asan", 6000 if q else 200000, {}, "annot/annotator-vs-editor"),
+            Batch("annot", "asan", 1500 if q else 40000, {"editor": 0}, "annot/no-editor"),
+        ]
     if prop == "C15":
         return [
+            Batch("annot", "asan", 1500 if q else 40000, {}, "annot/annotator-vs-editor"),
             Batch("import", "asan", 160 * (8 if q else 100), {"sweep": 1, "sweepseed": 2}, "import/single-fault-sweep"),
             Batch("import", "asan", 2500 if q else 60000, {}, "import/seeded-multi-fault"),
             Batch("equiv", "layout", 300 if q else 5000, {}, "equiv/analyser-issues"),
@@ -277,6 +283,12 @@ def batches_for(prop, tier):
 LEVELS = {"C07": "fault_enumeration"}
 
 RULES = {
+    "C13": "one case = one simulated run: a generated model (1-5 components, units with unit items, resets, imports, equivalences; ids absent / unique / duplicated / "
+           "auto-id shaped around the annotator's counter) shared by an annotator client (setModel, assignAllIds both overloads, assignIds for every type, every assignId "
+           "overload, clearAllIds, lookup batteries, printModel(model, true)) and an editor client that sets or clears ids on any item kind (including exactly the next id the "
+           "annotator would hand out), adds/removes components, variables, units, resets and equivalences, or destroys the model; the scheduler decides how many edits land "
+           "between setModel, lookups and assignments. Oracle = independent traversal of the model before/after each call. distinct = distinct event-log fingerprints; "
+           "non-trivial = at least one id was assigned and checked.",
     "C07": "one case = one simulated run over a generated import graph (2-6 files in 1-3 directories; units and component imports, chains, diamonds, "
            "shared import elements, encapsulation below imports) served by the simulated file layer. Sweep batch: every file x every single fault "
            "(absent, unreadable, 7 truncation classes, failing reads in EOF and exception flavour, replaced by HTML / garbage / empty / directory / CellML 1.1, "
@@ -295,6 +307,10 @@ RULES = {
 }
 
 ASSUMPTIONS = {
+    "C13": ["generated equivalences never put two variables of one component into the same equivalence class (no CellML document can express that, and the library's per-connection id storage is not defined for it)",
+            "connection ids are observed through Variable::equivalenceConnectionId() of directly equivalent pairs (one connection = one pair of components)",
+            "the return value of assignAllIds()/assignIds() ('something was assigned') is not checked: the property does not state it",
+            "assignId() on a map_variables/connection pair with a variable outside the annotator's model is expected to fail (with an issue)"],
     "C07": ["real-filesystem semantics below the hook (permissions, symlinks, path encodings) are not simulated; PATH_MAX is (opens of URLs longer than 4096 bytes fail)",
             "files whose parser errors concern the imported entity itself are not generated (the expected verdict is then not determined by the property)",
             "a reachable cycle of ordinary (non-imported) units makes the verdict undetermined: only termination, coherence and flatten-null-with-issue are checked there",
